@@ -59,7 +59,8 @@ def mk_chain(n, coin, rng, ntx_fn=lambda h: 1, real_genesis=True, segwit=False):
                 wit = [rng.randbytes(rng.randrange(0, 70)) for _ in range(rng.randrange(1, 3))] if segwit else None
                 txs.append({'ver': 2, 'ins': [{'txid': rng.randbytes(32), 'idx': k, 'sig': rng.randbytes(rng.randrange(0, 30)), 'seq': 0xffffffff, 'wit': wit}],
                             'outs': [{'val': rng.randrange(10 ** 9), 'spk': btc.p2pkh(rng.randbytes(20))}], 'lock': 0})
-            b = datadir.mk_block(prev, txs, t=1300000000 + 600 * h, nonce=h)
+            # timestamps are arbitrary u32 values (also far in the future): --verify does not look at the clock
+            b = datadir.mk_block(prev, txs, t=rng.choice([1300000000 + 600 * h, rng.randrange(1, 2 ** 32), 2 ** 32 - 1 - h]), nonce=h)
         blocks.append(b)
         prev = b['hash']
     return blocks, bool(g)
